@@ -2187,13 +2187,9 @@ where
                     if let Err(status) =
                         metadata.access(|node| node.validate_event_path(&path, &accessor))
                     {
-                        if matches!(status, IMStatusCode::UnsupportedEvent) {
-                            // Event does not exist on this endpoint
-                            // TODO: Look at TestEventsById.yaml
-                            // Seems we should not error out in that case?
-                            continue;
-                        }
-
+                        // A concrete path naming an event which the (existing) cluster
+                        // does not have is answered with `UnsupportedEvent`, like
+                        // a concrete path naming an absent endpoint or cluster
                         *empty = false;
 
                         let resp = EventResp::Status(EventStatus::new(path, status, None));
